@@ -64,7 +64,8 @@ class Rule:
         self.notes.append(text)
 
     def check_floor(self) -> None:
-        if self.floor is not None and self.instances < self.floor and not os.environ.get('SA_NOFLOOR'):
+        # a rule that already reports a violation is not vacuous, however few instances it looked at
+        if self.floor is not None and self.instances < self.floor and not self.findings and not os.environ.get('SA_NOFLOOR'):
             raise AnalysisError(
                 f'{self.rid}: only {self.instances} instance(s) found, confirmed floor is {self.floor} '
                 f'({self.title}) - the rule would pass vacuously'
